@@ -80,6 +80,17 @@ func (r *resendContext) clear() {
 	r.messages.m = nil
 }
 
+// forget drops (and zeroes) everything remembered for retransmission
+func (r *resendContext) forget() {
+	r.messages.Lock()
+	defer r.messages.Unlock()
+
+	for i := range r.messages.m {
+		wipeBytes(r.messages.m[i].m)
+	}
+	r.messages.m = nil
+}
+
 func (r *resendContext) shouldRetransmit() bool {
 	return len(r.messages.m) > 0 && r.mayRetransmit != noRetransmit
 }
